@@ -1093,6 +1093,47 @@ func c09EveryListedPatchLoaded(r *an.Run) {
 	}
 	text := load.Common().Args[1]
 	skip := skipEdges(emptyEdges(l, text))
+	// an empty line is skipped, not taken for the end of the list: from the "line is empty" edge the only way on is
+	// the next iteration
+	for _, e := range emptyEdges(l, text) {
+		t := e.Block.Succs[e.Succ]
+		leaves := !l.Blocks[t]
+		if !leaves && t != l.Header {
+			reach := an.Reach([]*ssa.BasicBlock{t}, func(b *ssa.BasicBlock, i int) bool { return b.Succs[i] == l.Header || b == load.Block() })
+			// leaving because the input has ended (the edges taken when this iteration's read reported an error)
+			// is the loop's regular end
+			var endOfInput []an.CtrlEdge
+			if rd := readerCallIn(l); rd != nil {
+				if errv := errValue(rd); errv != nil {
+					for _, b := range f.Blocks {
+						iff, ok := b.Instrs[len(b.Instrs)-1].(*ssa.If)
+						if !ok || !l.Blocks[b] {
+							continue
+						}
+						cond, pos := an.StripNot(iff.Cond)
+						cmp, ok := cond.(*ssa.BinOp)
+						if !ok || cmp.X != errv || !an.IsNilConst(cmp.Y) {
+							continue
+						}
+						succ := 1 // err == nil is false
+						if cmp.Op == token.NEQ {
+							succ = 0
+						}
+						if !pos {
+							succ = 1 - succ
+						}
+						endOfInput = append(endOfInput, an.CtrlEdge{Block: b, Succ: succ})
+					}
+				}
+			}
+			for b := range reach {
+				if !l.Blocks[b] && !(len(endOfInput) > 0 && unreachableWithout(b, endOfInput)) {
+					leaves = true
+				}
+			}
+		}
+		r.Check(!leaves, short(f)+"|empty-line-is-skipped", load.Pos(), "an empty line of the -P file is skipped and the list goes on: the way on from it leads to the next line only (not out of the loop — the patches listed after it would be dropped silently)")
+	}
 	// from the start of an iteration, can the header be reached again without executing the load and without the line being empty?
 	var starts []*ssa.BasicBlock
 	for _, s := range l.Header.Succs {
